@@ -73,4 +73,124 @@ Proof.
   rewrite Hs. repeat split.
 Qed.
 
+(* ---- the whole read ------------------------------------------------------------------------ *)
+(* two LASFiles that differ at most in the engine trace flag *)
+Definition same_las (a b : las) : Prop :=
+  l_version a = l_version b /\ l_well a = l_well b /\ l_curves a = l_curves b /\
+  l_params a = l_params b /\ l_other a = l_other b /\ l_custom a = l_custom b /\
+  l_data a = l_data b.
+
+Lemma same_las_refl a : same_las a a.
+Proof. repeat split. Qed.
+
+Lemma data_section_result_same o1 o2 ps l1 l2 c body :
+  o_null_strict o1 = o_null_strict o2 -> same_las l1 l2 ->
+  same_las (data_section_result o1 ps l1 c body) (data_section_result o2 ps l2 c body).
+Proof.
+  intros Hs (E1 & E2 & E3 & E4 & E5 & E6 & E7). unfold data_section_result, same_las.
+  cbn [l_version l_well l_curves l_params l_other l_custom l_data].
+  rewrite Hs, E1, E2, E3, E4, E5, E6. repeat split.
+Qed.
+
+Lemma wrap_declared_result o ps l c body :
+  wrap_declared (data_section_result o ps l c body) = wrap_declared l.
+Proof. reflexivity. Qed.
+
+Lemma step_section_opts o1 o2 ls ps p :
+  o_ignore_header_errors o1 = o_ignore_header_errors o2 -> o_mcase o1 = o_mcase o2 ->
+  step_section o1 ls ps p = step_section o2 ls ps p.
+Proof. intros H1 H2. unfold step_section. rewrite H1, H2. reflexivity. Qed.
+
+Lemma first_pass_opts o1 o2 ls :
+  o_ignore_header_errors o1 = o_ignore_header_errors o2 -> o_mcase o1 = o_mcase o2 ->
+  forall sects ps, first_pass o1 ls ps sects = first_pass o2 ls ps sects.
+Proof.
+  intros H1 H2. induction sects as [|p sects IH]; intros ps; cbn [first_pass]; [reflexivity|].
+  rewrite (step_section_opts o1 o2 ls ps p H1 H2).
+  destruct (step_section o2 ls ps p); [apply IH|reflexivity].
+Qed.
+
+(* a data section of the C02 domain, for some column count c >= 1 *)
+Definition dom2_section (ls : list (list N)) (p : spos) : Prop :=
+  exists c, (0 < c)%nat /\ Forall (fun raw => dom2_lineb fhex c raw = true) (body_lines ls p) /\
+            data_rows (body_lines ls p) <> [].
+
+(* executable check of dom2_section for a given column count *)
+Definition dom2_sectionb (ls : list (list N)) (c : nat) (p : spos) : bool :=
+  Nat.ltb 0 c && forallb (dom2_lineb fhex c) (body_lines ls p) && nonempty (data_rows (body_lines ls p)).
+
+Lemma dom2_sectionb_sound ls c sects :
+  forallb (dom2_sectionb ls c) sects = true -> Forall (dom2_section ls) sects.
+Proof.
+  intros H. apply Forall_forall. intros p Hin. rewrite forallb_forall in H. specialize (H p Hin).
+  unfold dom2_sectionb in H. apply andb_true_iff in H as [H H3]. apply andb_true_iff in H as [H1 H2].
+  exists c. split; [apply Nat.ltb_lt; exact H1|]. split.
+  - apply Forall_forall. rewrite forallb_forall in H2. exact H2.
+  - intros E. rewrite E in H3. discriminate.
+Qed.
+
+Lemma read_data_sections_agree o1 o2 ls ps :
+  o_null_strict o1 = o_null_strict o2 ->
+  hval_is_str (p_wrapped ps) (s2l "YES") = false ->
+  forall sects l1 l2,
+  same_las l1 l2 -> wrap_declared l1 = false ->
+  Forall (dom2_section ls) sects ->
+  exists l1' l2',
+    read_data_sections fhex fstr numeq o1 ls ps DSpace sects l1 = inl l1' /\
+    read_data_sections fhex fstr numeq o2 ls ps DSpace sects l2 = inl l2' /\
+    same_las l1' l2' /\
+    l_engine_numpy l1' = match sects with [] => l_engine_numpy l1 | _ => o_engine_numpy o1 && o_null_strict o1 end /\
+    l_engine_numpy l2' = match sects with [] => l_engine_numpy l2 | _ => o_engine_numpy o2 && o_null_strict o2 end.
+Proof.
+  intros Hs Hw. induction sects as [|p sects IH]; intros l1 l2 Hsame Hwd Hall; cbn [read_data_sections].
+  - exists l1, l2. auto.
+  - inversion Hall as [|? ? (c & Hc & Hdom & Hne) Hrest]; subst.
+    assert (Hwd2 : wrap_declared l2 = false).
+    { unfold wrap_declared in *. destruct Hsame as (E1 & _). rewrite <- E1. exact Hwd. }
+    rewrite (read_one_data_dom2 o1 ls ps p l1 c Hw Hwd Hc Hdom Hne).
+    rewrite (read_one_data_dom2 o2 ls ps p l2 c Hw Hwd2 Hc Hdom Hne).
+    destruct (IH (data_section_result o1 ps l1 c (body_lines ls p)) (data_section_result o2 ps l2 c (body_lines ls p)))
+      as (l1' & l2' & E1 & E2 & Hsame' & F1 & F2);
+      [apply data_section_result_same; assumption|rewrite wrap_declared_result; exact Hwd|exact Hrest|].
+    exists l1', l2'. rewrite E1, E2, F1, F2.
+    split; [reflexivity|]. split; [reflexivity|]. split; [exact Hsame'|].
+    split; destruct sects; reflexivity.
+Qed.
+
+Definition ps_initial : pstate :=
+  mkps (VFloat (s2l "2.0")) (VStr (s2l "YES")) None (VStr (s2l "SPACE")) empty_las [] [].
+
+(* LASFile.read with two option records that differ at most in the engine: if the first
+   pass ends in a state with WRAP NO, DLM SPACE, and every data section is in the C02
+   domain, both reads succeed and return the same header sections, curves and data *)
+Theorem read_engines_agree o1 o2 text ps :
+  o_ignore_header_errors o1 = o_ignore_header_errors o2 -> o_mcase o1 = o_mcase o2 ->
+  o_null_strict o1 = o_null_strict o2 -> o_ignore_data o1 = o_ignore_data o2 ->
+  first_pass o1 (lines_keep text) ps_initial (find_sections (lines_keep text)) = inl ps ->
+  dlm_of (p_dlm ps) = Some DSpace ->
+  hval_is_str (p_wrapped ps) (s2l "YES") = false ->
+  wrap_declared (p_las ps) = false ->
+  Forall (dom2_section (lines_keep text)) (match p_data ps with [] => p_las3data ps | x => x end) ->
+  exists l1 l2, read fhex fstr numeq o1 text = ROk l1 /\ read fhex fstr numeq o2 text = ROk l2 /\
+                same_las l1 l2 /\
+                (o_ignore_data o1 = false -> (match p_data ps with [] => p_las3data ps | x => x end) <> [] ->
+                 l_engine_numpy l1 = (o_engine_numpy o1 && o_null_strict o1) /\
+                 l_engine_numpy l2 = (o_engine_numpy o2 && o_null_strict o2)).
+Proof.
+  intros H1 H2 H3 H4 Hfp Hd Hw Hwd Hall. unfold read. fold ps_initial.
+  rewrite <- (first_pass_opts o1 o2 _ H1 H2), Hfp.
+  destruct (find_sections (lines_keep text)) as [|p0 sects] eqn:Es.
+  - exfalso. cbn [first_pass] in Hfp. injection Hfp as <-. vm_compute in Hw. discriminate Hw.
+  - rewrite Hd, <- H4.
+    remember (match p_data ps with [] => p_las3data ps | x => x end) as ds eqn:Eds. clear Eds.
+    destruct (o_ignore_data o1).
+    + exists (p_las ps), (p_las ps). split; [reflexivity|]. split; [reflexivity|]. split; [apply same_las_refl|]. discriminate.
+    + destruct (read_data_sections_agree o1 o2 (lines_keep text) ps H3 Hw _ (p_las ps) (p_las ps)
+                  (same_las_refl _) Hwd Hall) as (l1 & l2 & E1 & E2 & Hsame & F1 & F2).
+      exists l1, l2. rewrite E1, E2.
+      split; [reflexivity|]. split; [reflexivity|]. split; [exact Hsame|]. intros _ Hne. split.
+      * rewrite F1. destruct ds; [congruence|reflexivity].
+      * rewrite F2. destruct ds; [congruence|reflexivity].
+Qed.
+
 End OneSection.
